@@ -21,6 +21,7 @@ func checkC07(p *Prog, r *Report) {
 	r.rule("R4 error discipline and (value, nil) / (nothing, error) returns for NewURLFromRaw, NewURL, NewParams")
 	r.rule("C07.collection-detection: the to-one/to-many question for a relationship URL is answered by the relationship named by the last fragment, looked up in the type named by the first fragment")
 	r.rule("C07.fields-default: every write to params.Fields outside the defaulting loop (which replaces an empty selection by all fields of the type) is followed by that loop on every path to the successful return")
+	r.rule("C07.fields-fresh: a list stored into Params.Fields inside a loop traces back (through append, reslice, merges) to an allocation made inside that loop or to the entry's own previous value, never to a slice carried over from the previous type")
 	r.rule("C07.sort-name-tests: in the loop over the caller's sorting rules the comparison with \"id\" and the comparisons with the attribute names are applied to one and the same value (the rule stripped of its dash), so every valid rule is kept")
 	r.rule("C07.member-append: in NewParams every string appended to a result list is a constant, or is guarded by an equality with \"id\", with an attribute name of the schema type, or with an element of Type.Fields(), or comes from a list built that way")
 	r.rule("C07.include-chain: wherever the type for the next word of an inclusion path is looked up from <rel>.ToType, the same loop stores into <rel> the relationship found in the current type's Rels map, on a path back to that lookup (the walk advances along the chain of relationships)")
@@ -73,6 +74,7 @@ func checkC07(p *Prog, r *Report) {
 	checkMemberAppends(p, r, np)
 	checkSortNameTests(p, r, np)
 	checkFieldsDefault(p, r, "C07")
+	checkFieldsFresh(p, r, "C07")
 	checkCollectionDetection(p, r, np)
 	checkIDTotal(p, r, np)
 	checkURLTypeExists(p, r)
@@ -985,4 +987,108 @@ func checkCollectionDetection(p *Prog, r *Report, f *ssa.Function) {
 		r.decide(good, "C07.collection-detection", "NewParams:"+p.describe(lk), p.pos(lk.Pos()), "the relationship of the last fragment is looked up in the type of the first fragment", "whether a relationship URL denotes a collection is decided from a relationship looked up in a type other than the one named by the first path fragment: for a to-many relationship whose target has a to-one relationship of the same name the sorting rules are dropped")
 	})
 	r.floor("collection-detection lookups in NewParams", n, 1)
+}
+
+// checkFieldsFresh: the list stored for one type in Params.Fields is allocated
+// while that type is being processed. Tracing the stored value back through
+// append / reslice / merges must end in an allocation (or the entry's own
+// previous value) inside the innermost loop around the store - never in a
+// value carried from one iteration to the next, which would make the entries
+// of two types share a backing array.
+func checkFieldsFresh(p *Prog, r *Report, prefix string) {
+	f := p.Fn("NewParams")
+	if f == nil {
+		r.fail("anchor NewParams not found")
+		return
+	}
+	isParamsFields := func(m ssa.Value) bool {
+		base, fl, ok := fieldLoad(m)
+		return ok && fl == "Fields" && strings.HasSuffix(typeStr(deref(base.Type())), "Params")
+	}
+	n := 0
+	eachInstr(f, func(ins ssa.Instruction) {
+		mu, ok := ins.(*ssa.MapUpdate)
+		if !ok || !isParamsFields(mu.Map) {
+			return
+		}
+		// the outermost loop around the store whose iterations are the types:
+		// the loop in which the key changes. Use every enclosing loop: an
+		// allocation inside the innermost is inside all of them; a value carried
+		// round the outermost (per-type) loop is the defect.
+		var loops []map[*ssa.BasicBlock]bool
+		for _, hd := range f.Blocks {
+			if l := naturalLoop(hd); l != nil && l[mu.Block()] {
+				loops = append(loops, l)
+			}
+		}
+		if len(loops) == 0 {
+			return
+		}
+		outer := loops[0]
+		for _, l := range loops {
+			if len(l) > len(outer) {
+				outer = l
+			}
+		}
+		n++
+		seen := map[ssa.Value]bool{}
+		var origin func(v ssa.Value, depth int) string
+		origin = func(v ssa.Value, depth int) string {
+			if depth > 30 || seen[v] {
+				return ""
+			}
+			seen[v] = true
+			switch x := v.(type) {
+			case *ssa.Const:
+				return ""
+			case *ssa.MakeSlice:
+				if !outer[x.Block()] {
+					return "a slice made before the loop over the types (" + p.pos(x.Pos()) + ")"
+				}
+				return ""
+			case *ssa.Alloc:
+				if !outer[x.Block()] {
+					return "an array allocated before the loop over the types (" + p.pos(x.Pos()) + ")"
+				}
+				return ""
+			case *ssa.Slice:
+				return origin(x.X, depth+1)
+			case *ssa.Lookup:
+				return "" // the entry's own previous value (or another map's: not shared with a sibling entry by this store)
+			case *ssa.Extract:
+				return ""
+			case *ssa.Phi:
+				for _, e := range x.Edges {
+					if why := origin(e, depth+1); why != "" {
+						return why
+					}
+				}
+				return ""
+			case *ssa.Call:
+				if builtinName(x.Common()) == "append" {
+					return origin(x.Common().Args[0], depth+1)
+				}
+				return "" // a function result: fresh unless the callee says otherwise (not followed)
+			case *ssa.UnOp:
+				if x.Op == token.MUL {
+					if al, ok := x.X.(*ssa.Alloc); ok {
+						// a spilled local: every value stored into it
+						for _, ref := range referrers(al) {
+							if st, ok := ref.(*ssa.Store); ok && st.Addr == ssa.Value(al) {
+								if why := origin(st.Val, depth+1); why != "" {
+									return why
+								}
+							}
+						}
+					}
+				}
+				return ""
+			}
+			return ""
+		}
+		why := origin(mu.Value, 0)
+		r.decide(why == "", prefix+".fields-fresh", "NewParams:"+p.describe(mu), p.pos(mu.Pos()), "the stored list is allocated while its type is processed",
+			"the list stored for a type in Params.Fields goes back to "+why+": the selections of two types share one backing array, and filling the second overwrites the first")
+	})
+	r.floor(prefix+": writes to params.Fields inside loops", n, 2)
 }
